@@ -23,8 +23,14 @@ Proof. apply flat_map_app. Qed.
 Lemma cnt_app k a b : cnt k (a ++ b) = cnt k a + cnt k b.
 Proof. unfold cnt. rewrite filter_app, app_length. reflexivity. Qed.
 
-Definition idle (s : st) : Prop :=
+(* a manager at rest: not running, nothing queued *)
+Definition at_rest (s : st) : Prop :=
   running s = false /\ executing s = false /\ fifo s = [] /\ heap s = [] /\ batch s = 0 /\ bad s = false.
+(* ... and no pre-empted stopping thread left over from an earlier run *)
+Definition idle (s : st) : Prop := at_rest s /\ pend s = None.
+
+Definition is_early (p : option (bool * option Z)) : bool :=
+  match p with Some (true, _) => true | _ => false end.
 
 (* ---- the invariant; t0 = trace when run() was entered *)
 Definition Inv (t0 : list tr) (s : st) : Prop :=
@@ -33,8 +39,9 @@ Definition Inv (t0 : list tr) (s : st) : Prop :=
     firedK d = dispK d ++ heap s ++ fifo s /\
     cnt KStarted (firedK d) = 1 /\
     (if running s
-     then cnt KStopped (firedK d) = 0 /\ reqs d = []
-     else cnt KStopped (firedK d) = 1 /\ exists c r, reqs d = c :: r /\ xcode s = c).
+     then cnt KStopped (firedK d) = 0 /\ reqs d = [] /\ pend s = None
+     else cnt KStopped (firedK d) = (if is_early (pend s) then 0 else 1) /\
+          exists c r, reqs d = c :: r /\ xcode s = c).
 
 Definition mono (s s' : st) : Prop := running s = false -> running s' = false.
 Definition good (f : st -> st) : Prop := forall t0 s, Inv t0 s -> Inv t0 (f s) /\ mono s (f s).
@@ -71,8 +78,32 @@ Qed.
 Lemma inv_req_running t0 c s : Inv t0 s -> running s = true ->
   Inv t0 (fire KStopped (set_xcode c (set_running false (logt (TReq c) s)))).
 Proof.
-  intros (d & Ht & Hb & Hf & Hs & Hr) R. rewrite R in Hr. destruct Hr as (H0 & Hq).
+  intros (d & Ht & Hb & Hf & Hs & Hr) R. rewrite R in Hr. destruct Hr as (H0 & Hq & Hp).
   exists (d ++ [TReq c; TFire KStopped]).
+  unfold fire, logt; simpl. rewrite Ht, <- !app_assoc. split; [reflexivity|].
+  rewrite firedK_app, dispK_app, reqs_app. simpl. rewrite !app_nil_r.
+  split; [exact Hb|]. split; [rewrite Hf, !app_assoc; reflexivity|].
+  rewrite !cnt_app, H0, Hs, Hq, Hp. simpl. split; [reflexivity|]. split; [reflexivity|].
+  exists c, []. auto.
+Qed.
+
+(* the second thread's stop(c) pre-empted: before its fire(stopped) (early) or right after it (late) *)
+Lemma inv_stop_early t0 c s : Inv t0 s -> running s = true ->
+  Inv t0 (set_pend (Some (true, c)) (logt TEarly (set_xcode c (set_running false (logt (TReq c) s))))).
+Proof.
+  intros (d & Ht & Hb & Hf & Hs & Hr) R. rewrite R in Hr. destruct Hr as (H0 & Hq & Hp).
+  exists (d ++ [TReq c; TEarly]).
+  unfold logt; simpl. rewrite Ht, <- !app_assoc. split; [reflexivity|].
+  rewrite firedK_app, dispK_app, reqs_app. simpl. rewrite !app_nil_r.
+  split; [exact Hb|]. split; [exact Hf|].
+  rewrite Hq. simpl. split; [exact Hs|]. split; [exact H0|]. exists c, []. auto.
+Qed.
+
+Lemma inv_stop_late t0 c s : Inv t0 s -> running s = true ->
+  Inv t0 (set_pend (Some (false, c)) (logt TLate (fire KStopped (set_xcode c (set_running false (logt (TReq c) s)))))).
+Proof.
+  intros (d & Ht & Hb & Hf & Hs & Hr) R. rewrite R in Hr. destruct Hr as (H0 & Hq & Hp).
+  exists (d ++ [TReq c; TFire KStopped; TLate]).
   unfold fire, logt; simpl. rewrite Ht, <- !app_assoc. split; [reflexivity|].
   rewrite firedK_app, dispK_app, reqs_app. simpl. rewrite !app_nil_r.
   split; [exact Hb|]. split; [rewrite Hf, !app_assoc; reflexivity|].
@@ -93,7 +124,6 @@ Lemma inv_set_tasks t0 v s : Inv t0 s -> Inv t0 (set_tasks v s). Proof. exact (f
 Lemma inv_set_nextg t0 v s : Inv t0 s -> Inv t0 (set_nextg v s). Proof. exact (fun H => H). Qed.
 Lemma inv_set_sched t0 v s : Inv t0 s -> Inv t0 (set_sched v s). Proof. exact (fun H => H). Qed.
 Lemma inv_set_ext t0 v s : Inv t0 s -> Inv t0 (set_ext v s). Proof. exact (fun H => H). Qed.
-Lemma inv_set_pend t0 v s : Inv t0 s -> Inv t0 (set_pend v s). Proof. exact (fun H => H). Qed.
 Lemma inv_set_bad t0 s : Inv t0 s -> Inv t0 (set_bad s). Proof. exact (fun H => H). Qed.
 Lemma inv_set_executing t0 v s : Inv t0 s -> Inv t0 (set_executing v s). Proof. exact (fun H => H). Qed.
 
@@ -219,21 +249,28 @@ Proof.
     destruct (IH (S i) _ H1) as (H2 & M2). split; [exact H2 | eauto using mono_trans].
 Qed.
 
-Lemma do_xact_good t0 x s : Inv t0 s ->
-  Inv t0 (fst (do_xact false ticker x s)) /\ mono s (fst (do_xact false ticker x s)).
+Lemma do_xact_good t0 tm x s : Inv t0 s ->
+  Inv t0 (fst (do_xact false ticker tm x s)) /\ mono s (fst (do_xact false ticker tm x s)).
 Proof.
-  intros H. destruct x; simpl.
+  intros H.
+  assert (Inv t0 (fst (let '(s', raised) := req_stop ticker match x with XStop _ c => c | _ => None end s in
+                       (t2_raise match x with XStop _ c => c | _ => None end raised s', running s))) /\
+          mono s (fst (let '(s', raised) := req_stop ticker match x with XStop _ c => c | _ => None end s in
+                       (t2_raise match x with XStop _ c => c | _ => None end raised s', running s)))) as J.
+  { set (c := match x with XStop _ c => c | _ => None end).
+    destruct (req_stop_good t0 c s H) as (H1 & M1 & _).
+    destruct (req_stop ticker c s) as (s', raised). simpl in *.
+    destruct (t2_raise_good t0 c raised s' H1) as (H2 & R2).
+    split; [exact H2 | red; intros; rewrite R2; auto]. }
+  destruct x as [| n | m c]; simpl.
   - split; [exact H | red; auto].
   - split; [apply inv_fire; congruence || assumption | red; auto].
-  - destruct (late && running s && executing s) eqn:L.
-    + (* the pre-empted second-thread stop: same writes as an effective stop, in the order of the code *)
-      apply andb_true_iff in L. destruct L as (L & _). apply andb_true_iff in L. destruct L as (_ & R).
-      cbn [fst]. split; [|red; auto].
-      apply inv_set_pend. apply inv_logt; [exact I|]. apply inv_req_running; assumption.
-    + destruct (req_stop_good t0 c s H) as (H1 & M1 & _).
-      destruct (req_stop ticker c s) as (s', raised). simpl in *.
-      destruct (t2_raise_good t0 c raised s' H1) as (H2 & R2).
-      split; [exact H2 | red; intros; rewrite R2; auto].
+  - simpl in J. destruct (running s && executing s) eqn:L; [|exact J].
+    apply andb_true_iff in L. destruct L as (R & _).
+    destruct m.
+    + exact J.
+    + destruct tm; [|exact J]. cbn [fst]. split; [apply inv_stop_early; assumption | red; auto].
+    + cbn [fst]. split; [apply inv_stop_late; assumption | red; auto].
 Qed.
 
 Lemma idle_wait_good t0 xs : forall s, Inv t0 s ->
@@ -246,8 +283,8 @@ Proof.
       red; intros R0. apply M1. exact R0.
     + split; [exact H0 | red; auto].
   - assert (Inv t0 (logt (TWait true) (set_ext r s))) as H0 by (apply inv_logt; simpl; auto).
-    destruct (do_xact_good t0 x _ H0) as (H1 & M1).
-    destruct (do_xact false ticker x (logt (TWait true) (set_ext r s))) as (s', woke). simpl in *.
+    destruct (do_xact_good t0 false x _ H0) as (H1 & M1).
+    destruct (do_xact false ticker false x (logt (TWait true) (set_ext r s))) as (s', woke). simpl in *.
     assert (mono s s') as M by (red; intros R; apply M1; exact R).
     destruct woke; [auto|]. destruct (IH s' H1) as (H2 & M2). split; [exact H2 | eauto using mono_trans].
 Qed.
@@ -258,7 +295,7 @@ Proof.
   assert (Inv t0 (logt (TWait false) s)) as H0 by (apply inv_logt; simpl; auto).
   destruct (ext (logt (TWait false) s)) as [|x r].
   - split; [exact H0 | red; auto].
-  - destruct (do_xact_good t0 x (set_ext r (logt (TWait false) s)) H0) as (H1 & M1).
+  - destruct (do_xact_good t0 true x (set_ext r (logt (TWait false) s)) H0) as (H1 & M1).
     split; [exact H1 | red; intros R; apply M1; exact R].
 Qed.
 
@@ -403,17 +440,20 @@ Qed.
 Lemma inv_start t0 s : idle s -> trace s = t0 ->
   Inv t0 (fire KStarted (set_executing true (set_xcode None (set_running true s)))).
 Proof.
-  intros (R & X & F & Hh & B & _) Ht. exists [TFire KStarted].
-  unfold fire, logt; simpl. rewrite Ht, F, Hh, B. simpl. repeat split; reflexivity.
+  intros ((R & X & F & Hh & B & _) & Pn) Ht. exists [TFire KStarted].
+  unfold fire, logt; simpl. rewrite Ht, F, Hh, B, Pn. simpl. repeat split; reflexivity.
 Qed.
 
-(* everything the property says about one run(), from one use of the invariant *)
+(* everything the property says about one run(), from one use of the invariant.  The count of `stopped` is
+   exact: 1, except when a second thread's stop was pre-empted before its fire(stopped) and is still parked when
+   run() returns (pend s1 = Some (true, _)) -- then `stopped` has not even been queued: 0 *)
 Theorem run_spec : forall P d fuel s0 s1 out, idle s0 -> run false P d fuel s0 = Some (s1, out) ->
   exists delta, trace s1 = trace s0 ++ delta /\
     firedK delta = dispK delta /\
-    cnt KStarted (firedK delta) = 1 /\ cnt KStopped (firedK delta) = 1 /\
+    cnt KStarted (firedK delta) = 1 /\
+    cnt KStopped (firedK delta) = (if is_early (pend s1) then 0 else 1) /\
     (exists r, reqs delta = out :: r) /\
-    idle s1.
+    at_rest s1.
 Proof.
   intros P d fuel s0 s1 out Hi E. unfold run in E.
   pose proof (inv_start (trace s0) s0 Hi eq_refl) as H1.
@@ -435,7 +475,7 @@ Proof.
   rewrite F4, Hp4 in *. simpl in Hb. rewrite !app_nil_r in Hf.
   exists dl. simpl. split; [exact Ht|]. split; [exact Hf|]. split; [exact Hs|]. split; [exact Hst|].
   split; [exists r; rewrite Hq, Hx; reflexivity|].
-  unfold idle; simpl. repeat split; assumption || reflexivity.
+  unfold at_rest; simpl. repeat split; assumption || reflexivity.
 Qed.
 
 (* ---- the statements of Props/C08.v *)
@@ -446,11 +486,37 @@ Proof.
   exists dl. rewrite <- Hf. auto.
 Qed.
 
-Lemma stopped_once : forall P d fuel s0 s1 out, idle s0 -> run false P d fuel s0 = Some (s1, out) ->
+(* partial: exactly the complement of the open finding C08-early-return-race *)
+Lemma stopped_once_partial : forall P d fuel s0 s1 out, idle s0 -> run false P d fuel s0 = Some (s1, out) ->
+  is_early (pend s1) = false ->
   exists delta, trace s1 = trace s0 ++ delta /\ cnt KStopped (dispK delta) = 1.
 Proof.
+  intros P d fuel s0 s1 out Hi E He. destruct (run_spec P d fuel s0 s1 out Hi E) as (dl & Ht & Hf & Hs & Hst & Hq & Hid).
+  exists dl. rewrite <- Hf. rewrite He in Hst. auto.
+Qed.
+
+(* never more than once, whatever the schedule *)
+Lemma stopped_at_most_once : forall P d fuel s0 s1 out, idle s0 -> run false P d fuel s0 = Some (s1, out) ->
+  exists delta, trace s1 = trace s0 ++ delta /\ cnt KStopped (dispK delta) <= 1.
+Proof.
   intros P d fuel s0 s1 out Hi E. destruct (run_spec P d fuel s0 s1 out Hi E) as (dl & Ht & Hf & Hs & Hst & Hq & Hid).
-  exists dl. rewrite <- Hf. auto.
+  exists dl. rewrite <- Hf. split; [exact Ht|]. rewrite Hst. destruct (is_early (pend s1)); lia.
+Qed.
+
+(* the full statement is refuted: stop(5) from a second thread, pre-empted between `_exit_code = 5` and
+   fire(stopped) while the loop is in its timed idle wait (a generator task is pending): run() raises
+   SystemExit(5) and `stopped` has not been dispatched (it has not even been queued) *)
+Lemma stopped_before_return_refuted : exists P d fuel s0 s1 out delta,
+  idle s0 /\ run false P d fuel s0 = Some (s1, out) /\
+  trace s1 = trace s0 ++ delta /\ cnt KStopped (dispK delta) = 0 /\ out = Some 5%Z.
+Proof.
+  exists (prog_of [(KStarted, [BGen [([], RYield); ([], RYield); ([], RYield)]])]), 3, 50,
+         (init [] [XStop PEarly (Some 5%Z)]).
+  eexists. eexists. eexists.
+  split; [repeat split|].
+  split; [vm_compute; reflexivity|].
+  split; [simpl; reflexivity|].
+  vm_compute. split; reflexivity.
 Qed.
 
 Lemma drained : forall P d fuel s0 s1 out, idle s0 -> run false P d fuel s0 = Some (s1, out) ->
@@ -471,10 +537,13 @@ Qed.
 Lemma idle_stop : forall (tk : st -> st) c s, running s = false -> stop tk c s = (s, false).
 Proof. intros tk c s H. unfold stop. rewrite H. reflexivity. Qed.
 
-Lemma rerun : forall P d fuel s0 s1 out, idle s0 -> run false P d fuel s0 = Some (s1, out) -> idle s1.
+(* at rest again when run() returns; idle (all theorems apply to the next run) unless a pre-empted stopping
+   thread is still parked -- its remainder (finish_late) runs outside run() *)
+Lemma rerun : forall P d fuel s0 s1 out, idle s0 -> run false P d fuel s0 = Some (s1, out) ->
+  at_rest s1 /\ (pend s1 = None -> idle s1).
 Proof.
   intros P d fuel s0 s1 out Hi E. destruct (run_spec P d fuel s0 s1 out Hi E) as (dl & Ht & Hf & Hs & Hst & Hq & Hid).
-  exact Hid.
+  split; [exact Hid | intros Hp; split; assumption].
 Qed.
 
 (* ---- the order `_running = False; fire(stopped); _exit_code = code` is refuted: a second thread calls
@@ -483,7 +552,7 @@ Lemma exit_code_legacy_refuted : exists P d fuel s0 s1 delta r c,
   idle s0 /\ run true P d fuel s0 = Some (s1, None) /\
   trace s1 = trace s0 ++ delta /\ reqs delta = Some c :: r.
 Proof.
-  exists (prog_of []), 3, 50, (init [] [XStop true (Some 3%Z)]).
+  exists (prog_of []), 3, 50, (init [] [XStop PLate (Some 3%Z)]).
   eexists. eexists. eexists. eexists.
   split; [repeat split|].
   split; [vm_compute; reflexivity|].
@@ -493,5 +562,5 @@ Qed.
 
 (* the same schedule with the order of the code: the code reaches the caller *)
 Lemma exit_code_late_example :
-  option_map snd (run false (prog_of []) 3 50 (init [] [XStop true (Some 3%Z)])) = Some (Some 3%Z).
+  option_map snd (run false (prog_of []) 3 50 (init [] [XStop PLate (Some 3%Z)])) = Some (Some 3%Z).
 Proof. vm_compute. reflexivity. Qed.
